@@ -30,6 +30,8 @@ pub struct MapAns {
   pub names: Vec<String>,
   pub file: Option<String>,
   pub source_root: Option<String>,
+  #[serde(default)]
+  pub debug_id: Option<String>,
   pub segs: Vec<RSeg>,
   pub decode_ok: bool,
 }
@@ -51,6 +53,7 @@ impl MapAns {
       names: m.names().to_vec(),
       file: m.file().map(|s| s.to_string()),
       source_root: m.source_root().map(|s| s.to_string()),
+      debug_id: m.get_debug_id().map(|s| s.to_string()),
       segs,
       decode_ok,
     }
